@@ -206,6 +206,8 @@ enum Mode {
     Run,
     ProcWhole(usize),
     ProcBytes(usize),
+    /// two reads: the first `.1` bytes, then the rest
+    ProcCut(usize, usize),
 }
 
 fn exec_mode(mode: Mode, buf: &[u8]) -> (bool, Obs) {
@@ -222,6 +224,10 @@ fn exec_mode(mode: Mode, buf: &[u8]) -> (bool, Obs) {
             let (o, ob) = proc_obs(n, buf, &env::regular(buf.len(), 1), Pattern::NONE);
             (o.end == End::Returned, ob)
         }
+        Mode::ProcCut(n, k) => {
+            let (o, ob) = proc_obs(n, buf, &[k, buf.len() - k], Pattern::NONE);
+            (o.end == End::Returned, ob)
+        }
     }
 }
 
@@ -230,6 +236,7 @@ fn mode_json(m: Mode) -> J {
         Mode::Run => json!({"mode": "run"}),
         Mode::ProcWhole(n) => json!({"mode": "process-whole", "n": n}),
         Mode::ProcBytes(n) => json!({"mode": "process-bytes", "n": n}),
+        Mode::ProcCut(n, k) => json!({"mode": "process-cut", "n": n, "cut": k}),
     }
 }
 
@@ -256,7 +263,12 @@ fn check_history(st: &mut St, alpha: &[M], idx: &[usize], modes: &[Mode]) {
         st.faulty_then_sound += 1;
     }
     st.err_hist[exp.errs.len().min(7)] += 1;
-    for &mode in modes {
+    // histories of two messages also with every single cut of the stream into two reads
+    let mut all_modes: Vec<Mode> = modes.to_vec();
+    if idx.len() == 2 {
+        all_modes.extend((1..buf.len()).map(|k| Mode::ProcCut(64, k)));
+    }
+    for &mode in &all_modes {
         let (ok, obs) = exec_mode(mode, &buf);
         st.execs += 1;
         if !ok {
@@ -300,6 +312,7 @@ fn replay(path: &str, iface: &Iface) -> ! {
     let mode = match w["mode"].as_str().unwrap() {
         "run" => Mode::Run,
         "process-whole" => Mode::ProcWhole(n),
+        "process-cut" => Mode::ProcCut(n, w["cut"].as_u64().unwrap() as usize),
         _ => Mode::ProcBytes(n),
     };
     let oracle = j["features"]["oracle"].as_str().unwrap_or("");
@@ -457,7 +470,7 @@ fn main() {
     out.cov(
         "rule",
         "states = message histories (sequences over the message alphabet) + the alphabet messages alone; transitions = \
-         executions of run / process on the real code (5 delivery modes per history); non-trivial = histories in which a \
+         executions of run / process on the real code (5 delivery modes per history, for histories of two messages also every cut into two reads); non-trivial = histories in which a \
          sound message follows a faulty one",
     );
     out.cov(
